@@ -421,6 +421,79 @@ pub fn run(tier: &str) -> i32 {
             run_sequence_after(departed, *who, lines, &dir, &v, &stats);
         }
     }
+    // several sessions at once on one node: (a) the acknowledgements of one operation from its secondaries arrive on their
+    // link threads at the same moment; (b) four sessions run random lines of the corpus concurrently. A handler panic, a
+    // poisoned lock or a failing probe afterwards is a crash in the sense of the statement.
+    let mut concurrent_rounds = 0u64;
+    {
+        let dir = fresh_dir("c10-conc");
+        let fx = fixture(&dir);
+        let dbs = fx.node.dbs.clone();
+        let nodes = ["10.2.0.1:3014", "10.2.0.2:3014", "10.2.0.3:3014"];
+        let rounds = if thorough { 40_000 } else { 4_000 };
+        'acks: for r in 0..rounds {
+            let op = 1_000_000 + r as u64;
+            for n in nodes.iter() {
+                dbs.register_pending_opp(op, "m".into(), &n.to_string());
+            }
+            let barrier = std::sync::Barrier::new(nodes.len());
+            let panics: Mutex<Vec<String>> = Mutex::new(vec![]);
+            std::thread::scope(|sc| {
+                for n in nodes.iter() {
+                    let (dbs, barrier, panics) = (&dbs, &barrier, &panics);
+                    sc.spawn(move || {
+                        let mut s = Session::new();
+                        s.call(dbs, "auth admin pwd");
+                        barrier.wait();
+                        if let Err(e) = std::panic::catch_unwind(std::panic::AssertUnwindSafe(|| s.call(dbs, &format!("ack {} {}", op, n)))) {
+                            panics.lock().unwrap().push(panic_msg(&e));
+                        }
+                    });
+                }
+            });
+            concurrent_rounds += 1;
+            let p = panics.into_inner().unwrap();
+            let poisoned_now = poisoned(&dbs);
+            if !p.is_empty() || !poisoned_now.is_empty() {
+                v.report(json!({"check": "crash", "problem": if !p.is_empty() { "handler-panicked" } else { "lock-poisoned" }, "word": "ack", "who": "Admin", "detail": first_panic_frame(p.first().map(|x| x.as_str()).unwrap_or("")), "sessions": "concurrent"}),
+                    json!({"round": r, "lines": nodes.iter().map(|n| format!("ack {} {}", op, n)).collect::<Vec<_>>(), "panics": p, "poisoned": poisoned_now}));
+                break 'acks;
+            }
+        }
+        // (b) random corpus lines from four sessions at once (token and admin sessions; cluster-reconfiguring words left out)
+        let skip = ["join", "leave", "replicate-join", "replicate-leave", "set-primary", "set-secoundary", "election", "debug", "create-db", "snapshot"];
+        let corpus: Vec<&(String, String)> = cases.iter().flat_map(|c| c.1.iter()).filter(|l| !skip.contains(&l.1.split('/').next().unwrap_or("")) && l.0.len() < 2000).collect();
+        let per_thread = if thorough { 20_000 } else { 2_500 };
+        let panics: Mutex<Vec<(String, String)>> = Mutex::new(vec![]);
+        std::thread::scope(|sc| {
+            for t in 0..4u64 {
+                let (dbs, corpus, panics) = (&dbs, &corpus, &panics);
+                sc.spawn(move || {
+                    let mut r = Rng::new(seed().wrapping_mul(31).wrapping_add(t));
+                    let mut s = Session::new();
+                    if t % 2 == 0 {
+                        s.call(dbs, "auth admin pwd");
+                    }
+                    s.call(dbs, "use-db db tok");
+                    for _ in 0..per_thread {
+                        let l = r.pick(corpus);
+                        if let Err(e) = std::panic::catch_unwind(std::panic::AssertUnwindSafe(|| s.call(dbs, &l.0))) {
+                            panics.lock().unwrap().push((l.1.clone(), panic_msg(&e)));
+                            return;
+                        }
+                    }
+                });
+            }
+        });
+        concurrent_rounds += 4 * per_thread as u64;
+        let p = panics.into_inner().unwrap();
+        let poisoned_now = poisoned(&dbs);
+        if !p.is_empty() || !poisoned_now.is_empty() {
+            let word = p.first().map(|x| x.0.split('/').next().unwrap_or("").to_string()).unwrap_or_default();
+            v.report(json!({"check": "crash", "problem": if !p.is_empty() { "handler-panicked" } else { "lock-poisoned" }, "word": word, "detail": first_panic_frame(p.first().map(|x| x.1.as_str()).unwrap_or("")), "sessions": "concurrent"}),
+                json!({"panics": p, "poisoned": poisoned_now}));
+        }
+    }
     // the same corpus over the three real transports
     let th = crate::transports::c10_transports(&v, &cases, if thorough { 6000 } else { 700 });
     let st = stats.into_inner().unwrap();
@@ -429,6 +502,7 @@ pub fn run(tier: &str) -> i32 {
     ev.rule = format!("in-process: {} sequences of 15 writes / watch commands that start after 1-3 other sessions left subscriptions behind (in a database they no longer had selected, duplicated, as arbiter; gone by the transports' disconnect sequence or with their channel simply dropped) + {} targeted sequences + {} systematic lines (every parser command word + unknown + empty x every argument class alone and after a key, for anonymous / db-token / admin sessions) + {} seeded random sequences of 1-4 lines (0-5 arguments from {} hostile classes, 1/12 raw random bytes); after every line: catch_unwind, the real replication loop and supervisor consume what was enqueued, snapshot timer action if queued, poison scan of every lock, set/get probe from a second client. Transports: {} lines of the same corpus over real TCP, HTTP (incl. bodies of >100 commands) and WebSocket (text and binary frames) servers started in-process, each followed by a liveness probe. distinct_nontrivial = distinct (command word, argument class) pairs executed", departed_cases.len(), n_targeted, n_systematic, n_random, pool.len(), th.lines);
     ev.samples = st.samples.clone();
     ev.set("in_process_lines", json!(st.lines));
+    ev.set("commands_issued_by_concurrent_sessions", json!(concurrent_rounds));
     ev.set("probe_round_trips", json!(st.probes));
     ev.set("replication_messages_through_real_loop", json!(st.repl_msgs));
     ev.set("supervisor_messages_through_real_supervisor", json!(st.sup_msgs));
